@@ -945,7 +945,7 @@ class Units:
         return self.run_fn(fn, vals)
 
 
-def run_rule(fx, chk, rule, entries, regions=(None,), exclude=(), widths=True, floor=0, what=""):
+def run_rule(fx, chk, rule, entries, regions=(None,), exclude=(), widths=True, floor=0, what="", only=None):
     """evaluate the entry functions and report: one obligation per (function, region) with the number of dimension checks
     that passed, one violation per incompatible operation.  `entries`: [(impl self type, fn name)]; `regions`: which of
     'frag' / 'nonfrag' / None (code outside the fragmented / non-fragmented split) belong to this rule;
@@ -966,14 +966,14 @@ def run_rule(fx, chk, rule, entries, regions=(None,), exclude=(), widths=True, f
     total = 0
     bad_keys = set()
     for key, e in sorted(U.errors.items()):
-        if e["region"] not in regions or (e["fn"], e["region"]) in exclude:
+        if e["region"] not in regions or (e["fn"], e["region"]) in exclude or (only and not only(e["fn"])):
             continue
         fn = by_name.get(e["fn"])
         bad_keys.add((e["fn"], e["region"]))
         chk.bad(rule, "%s|%s|%s" % (e["fn"], e["kind"], e["sig"]), "%s: %s" % ({"unit": "incompatible quantities", "point": "absolute quantity misused", "scope": "file-relative quantity used run-locally", "width": "narrow arithmetic"}[e["kind"]], e["detail"]),
                 site_of(fn, e["line"]) if fn else "")
     for (fnm, region), cnt in sorted(U.checked.items(), key=str):
-        if region not in regions or (fnm, region) in exclude:
+        if region not in regions or (fnm, region) in exclude or (only and not only(fnm)):
             continue
         total += cnt
         fn = by_name.get(fnm)
